@@ -53,6 +53,16 @@ package destination
 //@   ensures @C01 err == nil ==> keys_and_cert.KacIsBytes(d.KeysAndCert, b)
 //@   modifies nothing
 
+// ---- C07: the hash is SHA-256 of exactly the serialised identity
+// (keys, padding, certificate).
+//@ spec func destOK(d *Destination) bool { return d == nil || d.KeysAndCert == nil || keys_and_cert.KacInv(d.KeysAndCert) }
+
+//@ contract (d *Destination) Hash() (h [32]byte, err error)
+//@   requires destOK(d)
+//@   ensures @C07 (err == nil) == (d != nil && d.KeysAndCert != nil)
+//@   ensures @C07 err == nil ==> ishash(h, keys_and_cert.KacWire(d.KeysAndCert))
+//@   modifies nothing
+
 //@ lemma C01_ReadDestination(data []byte) {
 //@   d, rem, err := ReadDestination(data)
 //@   if err == nil {
